@@ -138,12 +138,12 @@ func fwdhandleControlMessageNP(process *Process, cm ControlMessage, re *RuntimeE
 	// Notify that the process will change providers (i.e. the process.Providers will die and be replaced by cm.Providers)
 	process.terminateBeforeRename(process.Providers, cm.Providers, re)
 
-	// the process.Providers can no longer be used, so close them
-	// todo check if they are being closed anywhere else
-	closeProvidersNP(process.Providers)
+	// The request arrived on the control channel of the first provider: only that provider is
+	// replaced by the ones being forwarded to (a forward created by a split or a DUP has other
+	// providers as well, and they must be kept)
+	closeProvidersNP(process.Providers[:1])
 
-	// Change the providers to the one being forwarded to
-	process.Providers = cm.Providers
+	process.Providers = append(append([]Name{}, cm.Providers...), process.Providers[1:]...)
 
 	process.transitionLoopNP(re)
 }
